@@ -1,5 +1,7 @@
 import GV.Model.Threshold
 import Mathlib.Analysis.SpecialFunctions.Pow.Real
+import GV.Proofs.ThresholdCert
+import GV.Gen.SrcG7
 /-!
 C37 — The leadership threshold is the exact floor of the Praos formula.
 
@@ -361,6 +363,31 @@ theorem certified_output_correct (i : Input) (a b n m U T : ℕ) (hden : 0 < i.f
   rw [e3] at this
   exact this
 
+/-! ### the rational certificate (any denominator) -/
+
+/-- **Soundness of the rational certificate**: if `ThresholdCert.check a b n m U T c` holds then `T`
+    is the Praos formula at 1 − f = a/b, σ = n/m — with no bound on m. -/
+theorem ratcert_sound (a b n m U T : ℕ) (c : GV.Model.ThresholdCert.Cert)
+    (h : GV.Model.ThresholdCert.check a b n m U T c = true) :
+    (T : ℤ) = Tspec U ((n : ℝ) / m) (1 - (a : ℝ) / b) := by
+  have := GV.Proofs.ThresholdCert.check_sound a b n m U T c h
+  unfold Tspec
+  have e : (1:ℝ) - (1 - (a:ℝ) / b) = (a:ℝ) / b := by ring
+  rw [e]; exact this
+
+/-- end to end: after the guard ladder, an output accepted by the rational checker is the formula
+    at the caller's f and σ -/
+theorem ratcert_output_correct (i : Input) (a b n m U T : ℕ) (c : GV.Model.ThresholdCert.Cert)
+    (hden : 0 < i.fDen) (hg : guards i = .general a b n m U)
+    (hc : GV.Model.ThresholdCert.check a b n m U T c = true) :
+    (T : ℤ) = Tspec U (sigmaR i) (fR i) := by
+  obtain ⟨_, _, _, e1, e2⟩ := guards_general_sound i a b n m U hden hg
+  have := ratcert_sound a b n m U T c hc
+  rw [e2] at this
+  have e3 : (1:ℝ) - (a:ℝ) / b = fR i := by rw [e1]; ring
+  rw [e3] at this
+  exact this
+
 /-! ### eligibility -/
 
 /-- **a VRF leader value makes a pool eligible exactly when it is below the threshold** -/
@@ -375,6 +402,58 @@ theorem never_eligible_without_output (mode : ℕ) (lv : List UInt8 → List UIn
     (hmode : mode = 0 ∨ mode = 1) : below mode lv [] t = some false := by
   have : ¬ (mode ≠ 0 ∧ mode ≠ 1) := by omega
   cases t <;> simp [below, this]
+
+/-- Regenerated tie: the top-level statements of the Go functions, re-extracted from the source on every
+    run, are the ones `guards`, `below` and the eligibility model of the driver were written from (mode
+    switch, guard ladder in this order, the threshold computed in the CALLER's mode, numerator and
+    denominator roots both raised to n).  Any edit of these functions breaks this obligation. -/
+theorem source_as_modelled :
+    GV.Gen.SrcG7.certifiedNatThresholdWithMode = [
+  "var upperBound *big.Int",
+  "switch mode { case ConsensusModeCPraos: upperBound = twoTo256 case ConsensusModeTPraos: upperBound = twoTo512 default: return nil, fmt.Errorf(\"unknown consensus mode: %d\", mode) }",
+  "if activeSlotCoeff == nil { return big.NewInt(0), nil }",
+  "if activeSlotCoeff.Sign() <= 0 { return big.NewInt(0), nil }",
+  "fCmpOne := activeSlotCoeff.Cmp(bigRatOne)",
+  "if fCmpOne > 0 { return nil, fmt.Errorf(\"activeSlotCoeff must not exceed 1 (100%%), got %s\", activeSlotCoeff.RatString()) }",
+  "if totalStake == 0 { return big.NewInt(0), nil }",
+  "if poolStake == 0 { return big.NewInt(0), nil }",
+  "if poolStake > totalStake { poolStake = totalStake }",
+  "if fCmpOne == 0 { return new(big.Int).Set(upperBound), nil }",
+  "oneMinusF := new(big.Rat).Sub(bigRatOne, activeSlotCoeff)",
+  "if exact, ok := exactOneMinusFPowerSigmaThreshold(oneMinusF, poolStake, totalStake, upperBound); ok { return exact, nil }",
+  "return escalateThreshold(oneMinusF, poolStake, totalStake, upperBound, seriesTargetBits, maxThresholdEscalationBits)"] ∧
+    GV.Gen.SrcG7.isVRFOutputBelowThresholdWithMode = [
+  "var useRawOutput bool",
+  "switch mode { case ConsensusModeCPraos: case ConsensusModeTPraos: useRawOutput = true default: return false, fmt.Errorf(\"unknown consensus mode: %d\", mode) }",
+  "if threshold == nil { return false, nil }",
+  "if len(vrfOutput) == 0 { return false, nil }",
+  "var leaderValue []byte",
+  "if useRawOutput { leaderValue = vrfOutput } else { leaderValue = VrfLeaderValue(vrfOutput) }",
+  "vrfInt := VRFOutputToInt(leaderValue)",
+  "return vrfInt.Cmp(threshold) < 0, nil"] ∧
+    GV.Gen.SrcG7.isSlotLeaderFromComponentsWithMode = [
+  "switch mode { case ConsensusModeCPraos, ConsensusModeTPraos: default: return false, fmt.Errorf(\"unknown consensus mode: %d\", mode) }",
+  "if activeSlotCoeff == nil || totalStake == 0 || poolStake == 0 { return false, nil }",
+  "if len(vrfOutput) != 64 { return false, nil }",
+  "threshold, err := CertifiedNatThresholdWithMode(poolStake, totalStake, activeSlotCoeff, mode)",
+  "if err != nil { return false, err }",
+  "return IsVRFOutputBelowThresholdWithMode(vrfOutput, threshold, mode)"] ∧
+    GV.Gen.SrcG7.exactOneMinusFPowerSigma = [
+  "g := new(big.Int).GCD(nil, nil, new(big.Int).SetUint64(poolStake), new(big.Int).SetUint64(totalStake))",
+  "n := new(big.Int).Quo(new(big.Int).SetUint64(poolStake), g)",
+  "m := new(big.Int).Quo(new(big.Int).SetUint64(totalStake), g)",
+  "numRoot, ok := exactIntegerNthRoot(oneMinusF.Num(), m)",
+  "if !ok { return nil, false }",
+  "denRoot, ok := exactIntegerNthRoot(oneMinusF.Denom(), m)",
+  "if !ok { return nil, false }",
+  "return new(big.Rat).SetFrac(new(big.Int).Exp(numRoot, n, nil), new(big.Int).Exp(denRoot, n, nil)), true"] ∧
+    GV.Gen.SrcG7.exactOneMinusFPowerSigmaThreshold = [
+  "powerExact, ok := exactOneMinusFPowerSigma(oneMinusF, poolStake, totalStake)",
+  "if !ok { return nil, false }",
+  "probabilityExact := new(big.Rat).Sub(bigRatOne, powerExact)",
+  "threshold := new(big.Int).Mul(upperBound, probabilityExact.Num())",
+  "threshold.Quo(threshold, probabilityExact.Denom())",
+  "return threshold, true"] := ⟨rfl, rfl, rfl, rfl, rfl⟩
 
 /-! non-vacuity -/
 example : certOK 1 4 1 2 (2 ^ 256) (2 ^ 255) = true := by decide   -- f = 3/4, σ = 1/2: exactly half
